@@ -993,6 +993,15 @@ package whispertool
 //@   use mod_unique(a - b, s, a fdiv s - b fdiv s, 0)
 //@   ensures diff: (a - b) fmod s == 0 && alignedTo(a - b, s)
 
+//@ lemma slot_distinct(a ArchiveInfo, base int, t1 int, t2 int)
+//@   props C01 C03
+//@   requires validArchive(a) && alignedTo(base, a.secondsPerPoint) && alignedTo(t1, a.secondsPerPoint) && alignedTo(t2, a.secondsPerPoint)
+//@   requires t1 != t2 && t1 - t2 < a.numberOfPoints * a.secondsPerPoint && t2 - t1 < a.numberOfPoints * a.secondsPerPoint
+//@   use aligned_diff(a.secondsPerPoint, t1, base)
+//@   use aligned_diff(a.secondsPerPoint, t2, base)
+//@   use idx_inj(a.secondsPerPoint, a.numberOfPoints, t1 - base, t2 - base)
+//@   ensures distinct: idxOf(a, base, t1) != idxOf(a, base, t2)
+
 //@ spec effBase(w *Whisper, k int, first int) int = ite(old(baseOf(w, k)) == 0, floorTo(first, stepOf(w, k)), old(baseOf(w, k)))
 
 //@ func (*Whisper).archiveUpdateMany
@@ -1007,11 +1016,26 @@ package whispertool
 //@                 && floorTo(points[len(points) - 1].Time, stepOf(w, archiveID)) - effBase(w, archiveID, points[0].Time) <= 2147483647
 //@                 ==> slotT(w, archiveID, idxOf(archOf(w, archiveID), effBase(w, archiveID, points[0].Time), floorTo(points[len(points) - 1].Time, stepOf(w, archiveID)))) == floorTo(points[len(points) - 1].Time, stepOf(w, archiveID))
 //@                 && slotB(w, archiveID, idxOf(archOf(w, archiveID), effBase(w, archiveID, points[0].Time), floorTo(points[len(points) - 1].Time, stepOf(w, archiveID)))) == bits(points[len(points) - 1].Value)
+//@   check[C01,C03] all_stored: result == nil && alignedTo(effBase(w, archiveID, points[0].Time), stepOf(w, archiveID)) ==>
+//@                 forall j :: 0 <= j && j < len(alignedPoints)
+//@                 && (j + 1 < len(alignedPoints) ==> alignedPoints[j + 1].Time > alignedPoints[j].Time)
+//@                 && alignedPoints[len(alignedPoints) - 1].Time - alignedPoints[j].Time < countOf(w, archiveID) * stepOf(w, archiveID)
+//@                 && -2147483648 < alignedPoints[j].Time - effBase(w, archiveID, points[0].Time) && alignedPoints[len(alignedPoints) - 1].Time - effBase(w, archiveID, points[0].Time) <= 2147483647
+//@                 ==> slotT(w, archiveID, idxOf(archOf(w, archiveID), effBase(w, archiveID, points[0].Time), alignedPoints[j].Time)) == alignedPoints[j].Time
+//@                 && slotB(w, archiveID, idxOf(archOf(w, archiveID), effBase(w, archiveID, points[0].Time), alignedPoints[j].Time)) == bits(alignedPoints[j].Value)
 //@ loop (*Whisper).archiveUpdateMany#0
 //@   use aligned_diff(stepOf(w, archiveID), alignedPoints[iter].Time, baseInterval) when iter < len(alignedPoints) && alignedTo(baseInterval, stepOf(w, archiveID))
 //@   use idx_facts(archOf(w, archiveID), baseInterval, alignedPoints[iter].Time, 0) when iter < len(alignedPoints) && alignedTo(baseInterval, stepOf(w, archiveID))
 //@   invariant bounds: 0 <= iter && iter <= len(alignedPoints)
 //@   invariant frame: forall b :: (b < archOf(w, archiveID).offset || b >= archOf(w, archiveID).offset + 12 * countOf(w, archiveID)) ==> fbyte(w.fileBuf, b) == old(fbyte(w.fileBuf, b))
+//@   use slot_distinct(archOf(w, archiveID), baseInterval, alignedPoints[j].Time, alignedPoints[iter].Time) when 0 <= j && j < iter && iter < len(alignedPoints) && alignedTo(baseInterval, stepOf(w, archiveID)) forall j
+//@   use idx_facts(archOf(w, archiveID), baseInterval, alignedPoints[j].Time, 0) when 0 <= j && j < iter && iter < len(alignedPoints) && alignedTo(baseInterval, stepOf(w, archiveID)) && (alignedPoints[j].Time - baseInterval) fmod stepOf(w, archiveID) == 0 forall j
+//@   invariant allw: forall j :: 0 <= j && j < iter && alignedTo(baseInterval, stepOf(w, archiveID))
+//@                 && (j + 1 < iter ==> alignedPoints[j + 1].Time > alignedPoints[j].Time)
+//@                 && alignedPoints[iter - 1].Time - alignedPoints[j].Time < countOf(w, archiveID) * stepOf(w, archiveID)
+//@                 && -2147483648 < alignedPoints[j].Time - baseInterval && alignedPoints[iter - 1].Time - baseInterval <= 2147483647
+//@                 ==> slotT(w, archiveID, idxOf(archOf(w, archiveID), baseInterval, alignedPoints[j].Time)) == alignedPoints[j].Time
+//@                 && slotB(w, archiveID, idxOf(archOf(w, archiveID), baseInterval, alignedPoints[j].Time)) == bits(alignedPoints[j].Value)
 //@   invariant lastw: iter > 0 && alignedTo(baseInterval, stepOf(w, archiveID))
 //@                 && -2147483648 < alignedPoints[iter - 1].Time - baseInterval && alignedPoints[iter - 1].Time - baseInterval <= 2147483647
 //@                 ==> slotT(w, archiveID, idxOf(archOf(w, archiveID), baseInterval, alignedPoints[iter - 1].Time)) == alignedPoints[iter - 1].Time
